@@ -303,7 +303,7 @@ func c02AnyKind(c *Ctx, a *sketchAnchors) {
 
 		// D4: dense family cached total
 		if cnt := denseCountField(c, t); cnt != nil && len(fastPaths) > 0 {
-			bad := ""
+			bad, badWin := "", ""
 			nAdd := 0
 			for _, p := range fastPaths {
 				addsBins, addsCount := false, false
@@ -336,8 +336,14 @@ func c02AnyKind(c *Ctx, a *sketchAnchors) {
 					if !addsCount {
 						bad = "argument bins are added but the cached total is not: [" + p.String() + "]"
 					}
+					// the receiver's window covers the argument's before bins are added: either it was extended to the
+					// argument's range on this path, or both "argument reaches beyond" tests were made and failed
+					if !c02WindowCovers(p) {
+						badWin = "argument bins are added on a path that neither extends the receiver's window to the argument's range nor found it covered already: [" + p.String() + "]"
+					}
 				}
 			}
+			c.R.check(badWin == "" && nAdd > 0, rule4, tname+".MergeWith/window-covers-argument", shortFn(f), c.fpos(f), "every same-kind path that adds the argument's bins has extended the receiver's window to [o.minIndex, o.maxIndex] or tested that it already covers it (otherwise the added bins stay outside minIndex…maxIndex and are invisible to iteration and extremes)", firstNonEmpty(badWin, fmt.Sprintf("%d adding path(s)", nAdd)))
 			c.R.check(bad == "" && nAdd > 0, rule4, tname+".MergeWith/cached-total-follows", shortFn(f), c.fpos(f), "every same-kind path that adds the argument's bins also adds its cached total to the receiver's", firstNonEmpty(bad, fmt.Sprintf("%d adding path(s)", nAdd)))
 		}
 		// empty-argument shortcut writes nothing
@@ -406,4 +412,66 @@ func denseCountField(c *Ctx, t *types.Named) []string {
 		}
 	}
 	return nil
+}
+
+// c02WindowCovers: on this same-kind merge path of a dense-family store the receiver's window is known to cover
+// the argument's: extendRange was called with the argument's (min, max), or the two tests
+// `o.minIndex < s.minIndex` and `o.maxIndex > s.maxIndex` were both evaluated and false.
+func c02WindowCovers(p *Path) bool {
+	fromArg := func(t *Term, fld string) bool {
+		t = t.unver()
+		if t.Op != "field" || t.Sym != fld {
+			return false
+		}
+		for x := t.Args[0]; x != nil; {
+			x = x.unver()
+			if x.Op == "extract" && len(x.Args) > 0 && x.Args[0].Op == "assert" {
+				return true
+			}
+			if x.Op != "field" || len(x.Args) == 0 {
+				return false
+			}
+			x = x.Args[0]
+		}
+		return false
+	}
+	fromRecv := func(t *Term, fld string) bool {
+		t = t.unver()
+		if t.Op != "field" || t.Sym != fld {
+			return false
+		}
+		for x := t.Args[0]; x != nil; {
+			x = x.unver()
+			if x.isParam(0) {
+				return true
+			}
+			if x.Op != "field" || len(x.Args) == 0 {
+				return false
+			}
+			x = x.Args[0]
+		}
+		return false
+	}
+	for _, e := range p.Effects {
+		if e.Kind == "call" && isMethodCall(e.Call, "extendRange") && len(e.Call.Args) == 3 && fromArg(e.Call.Args[1], dr.minIndex) && fromArg(e.Call.Args[2], dr.maxIndex) {
+			return true
+		}
+	}
+	lowOK, highOK := false, false
+	for _, cd := range p.Conds {
+		t := cd.Term
+		if !t.isBin("<") && !t.isBin("<=") {
+			continue
+		}
+		x, y := t.Args[0], t.Args[1]
+		// o.min < s.min false  (or s.min <= o.min true)
+		if t.isBin("<") && fromArg(x, dr.minIndex) && fromRecv(y, dr.minIndex) && !cd.Taken || t.isBin("<=") && fromRecv(x, dr.minIndex) && fromArg(y, dr.minIndex) && cd.Taken {
+			lowOK = true
+		}
+		// s.max < o.max false  (or o.max <= s.max true)
+		if t.isBin("<") && fromRecv(x, dr.maxIndex) && fromArg(y, dr.maxIndex) && !cd.Taken || t.isBin("<=") && fromArg(x, dr.maxIndex) && fromRecv(y, dr.maxIndex) && cd.Taken {
+			highOK = true
+		}
+	}
+	return lowOK && highOK
 }
